@@ -4,6 +4,7 @@
 use std::io::{Cursor, SeekFrom};
 
 use crate::ByteSpan;
+use crate::common_file_operations::read_counted_bytes;
 use crate::crc::XivCrc32;
 use binrw::{BinRead, binread};
 
@@ -65,7 +66,7 @@ pub struct Shader {
 
     /// The HLSL bytecode of this shader. The DX level used varies.
     #[br(seek_before = SeekFrom::Start(shader_data_offset as u64 + data_offset as u64 + if is_vertex { 8 } else { 0 } ))]
-    #[br(count = data_size)]
+    #[br(parse_with = read_counted_bytes, args(data_size as u64))]
     #[br(restore_position)]
     pub bytecode: Vec<u8>,
 }
